@@ -783,7 +783,9 @@ def write_outputs_glue(ctx, worlds, workdir):
             continue
         if not record.get_regions():
             continue
-        record.id = record.name = f"c12rec{k}"
+        # identifiers are unique within a run, names need not be (shortened contig names, equal LOCUS names)
+        record.id = f"c12rec{k}"
+        record.name = "c12rec"
         record.annotations["accessions"] = [record.id]
         record.record_index = len(records) + 1
         records.append(record)
